@@ -243,6 +243,23 @@ def site_cases(ev, ctx, l, allow_multi=False, depth=0):
                             sub.append(("None", list(fs) + [("is_some", recv, False)], ("agg", "std::option::Option::None", ())))
                     if not sub:
                         sub = None
+            if sub is None and model == "Option::and_then" and len(payload["args"]) == 2:
+                # Some exactly when the receiver is Some and the closure returns Some: the closure's own return cases, under
+                # what is known of the receiver
+                from terms import Ctx
+                recv = unref(ev.operand(ctx, payload["args"][0]))
+                clo = ev.operand(ctx, payload["args"][1])
+                c0 = clo[1] if clo[0] == "ref" else clo
+                if c0[0] == "agg" and c0[1].startswith("closure:"):
+                    d_ = c0[1][len("closure:"):]
+                    cb_ = ev.facts.bodies.get(d_)
+                    if cb_ is not None and d_ not in ctx.stack and ctx.depth < ev.MAX_DEPTH:
+                        cctx_ = Ctx(cb_, params=(c0, ev.payload(ctx, recv)), self_adt=ctx.self_adt, bindings=ctx.bindings,
+                                    depth=ctx.depth + 1, site=ctx.site + ((d_, "closure"),), stack=ctx.stack + (d_,))
+                        cc = local_cases(ev, cctx_, 0, True, depth + 1)
+                        if cc:
+                            sub = [(K, [("is_some", recv, True)] + list(fs), v) for (K, fs, v) in cc if K in ("Some", "None")]
+                            sub.append(("None", [("is_some", recv, False)], ("agg", "std::option::Option::None", ())))
             if sub is None and model == "Option::filter" and len(payload["args"]) == 2:
                 # Some(x) exactly when the receiver is Some(x) and the predicate holds for x
                 recv = ev.operand(ctx, payload["args"][0])
